@@ -22,8 +22,11 @@
 #include <QJsonObject>
 #include <QString>
 
+#include <chrono>
 #include <cstdio>
 #include <cstdlib>
+#include <thread>
+#include <unistd.h>
 #include <functional>
 #include <map>
 #include <set>
@@ -217,10 +220,29 @@ inline QJsonObject readCaseFile(const char *path)
 // generate: draws a case with rapidcheck generators and returns it as JSON (plain data)
 // run:      executes a case; returns "" when the property held, else the reason. Must be a
 //           pure function of the case.
+// Time budget: the driver passes VERIF_DEADLINE_S (seconds of wall time this process may use). When it is used up the
+// harness writes the statistics of what it explored so far and exits 0 ("held on everything explored"); a budget that
+// runs out is never a violation and never a harness error.
+inline void startBudgetWatchdog()
+{
+    const long budget = atol(envOr("VERIF_DEADLINE_S", "0"));
+    if (budget <= 0)
+        return;
+    std::thread([budget] {
+        std::this_thread::sleep_for(std::chrono::seconds(budget));
+        count("time_budget_exhausted");
+        dumpStats(true);
+        fprintf(stderr, "time budget of %ld s used up after %ld cases: stopping (inconclusive beyond that, not a failure)\n", budget, stats().evaluations);
+        _exit(0);
+    }).detach();
+}
+
 inline int harnessMain(const char *name, const std::function<QJsonObject()> &generate,
                        const std::function<std::string(const QJsonObject &)> &run)
 {
     __sanitizer_set_death_callback(onSanitizerDeath);
+    if (!getenv("VERIF_REPLAY"))
+        startBudgetWatchdog();
     if (const char *rp = getenv("VERIF_REPLAY")) {
         QJsonObject c = readCaseFile(rp);
         currentCase() = c;
